@@ -19,16 +19,26 @@ def shift_of(m, r):
     for gid in gen.group_chain(m, r):
         if gm[gid].get("shift"):
             return gm[gid]["shift"]
+        if gm[gid].get("inline"):
+            return None          # the nearest declaration wins: inline hours on this group
     return None
 
 
 def hours_spec(m, r):
-    """the resource's hours (own inline hours, own shift, a shift inherited from a group); None = the project default applies"""
+    """the resource's hours (own inline hours, own shift, hours or a shift inherited from the nearest group that
+    declares any); None = the project default applies"""
     if "inline" in r and "shift" not in r:
         return r["inline"]
     sid = shift_of(m, r)
     if sid is not None:
         return m["shifts"][sid]
+    if "shift" not in r and "inline" not in r:
+        gm = {g["id"]: g for g in m.get("groups", [])}
+        for gid in gen.group_chain(m, r):
+            if gm[gid].get("inline"):
+                return gm[gid]["inline"]
+            if gm[gid].get("shift"):
+                break
     return None
 
 
